@@ -233,6 +233,14 @@ func (m *CPU) Run(app risc.Application) (int, error) {
 			empty = false
 			eu.Cycle(euReq{cycle, app})
 		}
+		// Results of the instructions completed here still have to be written back
+		m.writeBus.Connect(cycle)
+		if !m.areWriteUnitsEmpty() || !m.writeBus.IsEmpty() {
+			empty = false
+		}
+		for _, wu := range m.writeUnits {
+			_ = wu.Cycle(wuReq{-1})
+		}
 		if empty {
 			break
 		}
